@@ -382,3 +382,9 @@ package roundrobin
 //@   requires n != nil && ratioOK(n.r)
 //@   modifies external
 //@   ensures ready_when_the_window_is_full: calls(IsReady) == 1 && result == callres(IsReady, 0, 0)
+
+// the default meter builder: a failure-ratio meter over the gateway-side statuses 500..504 and a fresh 10 x 1 s ratio counter
+//@ func NewRebalancer$1
+//@   props C10
+//@   modifies external
+//@   ensures counts_500_to_504: result1 == nil ==> istype(result0, "*codeMeter") && asref(payload(result0), "*codeMeter").codeS == 500 && asref(payload(result0), "*codeMeter").codeE == 505 && asref(payload(result0), "*codeMeter").r != nil && fresh(asref(payload(result0), "*codeMeter").r) && len(asref(payload(result0), "*codeMeter").r.a.values) == 10 && asref(payload(result0), "*codeMeter").r.a.resolution == 1000000000 && asref(payload(result0), "*codeMeter").r.a != asref(payload(result0), "*codeMeter").r.b
